@@ -324,12 +324,22 @@ func refMin(a, b int) int {
 // any order with RM's canonical proof, and 0..maxAdd fresh additions.
 func (f *refForest) refBlock(v *refView, maxDel, maxAdd int) *refBlockT {
 	b := &refBlockT{}
-	if verifParam("wholeTree", 0) == 1 && len(v.roots) > 0 {
-		// optionally all live leaves of one whole tree, plus up to maxDel others (ascending)
-		t := verifChoose("wholeTree", -1, len(v.roots)-1)
+	if wt := verifParam("wholeTree", 0); wt >= 1 && len(v.roots) > 0 {
+		// optionally all live leaves of one whole tree (wholeTree=1) or of any subset of the trees
+		// (wholeTree=2), plus up to maxDel other leaves (ascending)
+		pick := make([]bool, len(v.roots))
+		if wt == 1 {
+			if t := verifChoose("wholeTree", -1, len(v.roots)-1); t >= 0 {
+				pick[t] = true
+			}
+		} else {
+			for t := range pick {
+				pick[t] = verifChoose("wholeTree", 0, 1) == 1
+			}
+		}
 		var others []int
 		for _, s := range f.liveSlots() {
-			if t >= 0 && v.nodes[v.leafIdx[s]].tree == t {
+			if pick[v.nodes[v.leafIdx[s]].tree] {
 				b.delSlots = append(b.delSlots, s)
 			} else {
 				others = append(others, s)
